@@ -17,10 +17,18 @@ fn main() {
         std::thread::spawn(move || {
             for r in 1..=rounds {
                 barrier.wait();
-                // every thread offers the same id r: one growth, exactly one `true`
-                if cell.update(rid(r)) { trues.fetch_add(1, Ordering::Relaxed); }
+                if r % 2 == 0 {
+                    // every thread offers the same id: one growth, exactly one `true`
+                    if cell.update(rid(r * 8)) { trues.fetch_add(1, Ordering::Relaxed); }
+                    barrier.wait();
+                    if t == 0 && raw(cell.load()) != r * 8 { bad_max.fetch_add(1, Ordering::Relaxed); }
+                } else {
+                    // distinct ids offered at the same moment: the maximum must be what is stored
+                    let _ = cell.update(rid(r * 8 + t + 1));
+                    barrier.wait();
+                    if t == 0 { trues.fetch_add(1, Ordering::Relaxed); if raw(cell.load()) != r * 8 + 4 { bad_max.fetch_add(1, Ordering::Relaxed); } }
+                }
                 barrier.wait();
-                if t == 0 && raw(cell.load()) != r { bad_max.fetch_add(1, Ordering::Relaxed); }
             }
         })
     }).collect();
